@@ -23,7 +23,7 @@ func init() {
 			"(R-TYPEERR / R-ARITY / R-IFACEEQ / R-DIV0 as in C18) for all built-ins; (R-NILNIL) at every return of Compile either the error is non-nil or the *Expr is a fresh allocation; (R-NOFAIL) no panic, os.Exit, log.Fatal, go statement in the closure and optimizers have no failure channel; (R-STATELESS-TABLE) as in C10. " +
 			"NOT decided: termination of the lexer/parser loops and recursion, 'positions strictly increasing' (depends on scIdx > i, a table value), blocking on an unconsumed EventChan (a precondition of event mode), everything in class 2. (R-ERRDROP) no return of the API closure yields a nil error on the non-nil edge of an error obtained from a call: a swallowed parser error is how a nil node reaches a dereference, which the ledger itself does not model. Round 2: R-ERRDROP also requires every error result of a call in the API closure to be looked at; the comparability guard of eq/ne must be a value-level walk (R-IFACEEQ, D17); R-DIREQ shared from C02.",
 		Run:       runC06,
-		Witnesses: append(append(append([]Witness{}, delWitnessesC06...), capturedLenWitnesses...), c06Witnesses...),
+		Witnesses: append(append(append(append([]Witness{}, delWitnessesC06...), capturedLenWitnesses...), errPathWitnesses...), c06Witnesses...),
 	})
 }
 
@@ -363,6 +363,73 @@ func ruleErrDrop(w *World, r *Report, set map[*ssa.Function]bool) {
 			r.Check(used, rule, w.InstrPos(c), name, "error result of "+callee, "the error is looked at", "the error result of this call is thrown away: a failure is silently turned into success (a malformed source compiles, a missing node is dereferenced)")
 		})
 	}
+	// once an error obtained from a call has been found non-nil, the function does not go back to its normal flow: every
+	// return reachable from the non-nil edge of the test reports an error (path rule; the dominance clause below cannot see
+	// a failing edge that rejoins the success path before the return)
+	for _, fn := range w.SortedFuncs(set) {
+		res := fn.Signature.Results()
+		if res.Len() == 0 || !isErrorType(res.At(res.Len()-1).Type()) {
+			continue
+		}
+		name := w.Name(fn)
+		for _, b := range fn.Blocks {
+			iff, ok := b.Instrs[len(b.Instrs)-1].(*ssa.If)
+			if !ok || b.Succs[0] == b.Succs[1] {
+				continue
+			}
+			x, isEq, okn := nilCompare(iff.Cond)
+			if !okn || !isErrorType(x.Type()) {
+				continue
+			}
+			fromCall := false
+			switch v := x.(type) {
+			case *ssa.Extract:
+				_, fromCall = v.Tuple.(*ssa.Call)
+			case *ssa.Call:
+				fromCall = true
+			}
+			if !fromCall {
+				continue
+			}
+			failing := b.Succs[0]
+			if isEq {
+				failing = b.Succs[1]
+			}
+			seen := map[*ssa.BasicBlock]bool{failing: true}
+			stack := []*ssa.BasicBlock{failing}
+			var leak *ssa.Return
+			for len(stack) > 0 && leak == nil {
+				y := stack[len(stack)-1]
+				stack = stack[:len(stack)-1]
+				if ret := blockReturn(y); ret != nil {
+					ev := ret.Results[len(ret.Results)-1]
+					switch {
+					case isNilConst(ev):
+						leak = ret
+					case failing.Dominates(y) && len(failing.Preds) == 1:
+						// a return of the failing path itself: whatever it reports was decided there
+					case errCarries(ev, x, map[ssa.Value]bool{}):
+						// the tested error travels on to a shared return
+					default:
+						// the failing path has rejoined the normal flow and the return reports some other call's outcome
+						leak = ret
+					}
+					continue
+				}
+				for _, sy := range y.Succs {
+					if !seen[sy] {
+						seen[sy] = true
+						stack = append(stack, sy)
+					}
+				}
+			}
+			if leak != nil {
+				r.Fail(rule, w.InstrPos(iff), name, "failing edge of the test of "+describe(x), "after this error was found non-nil the function can still reach the return at "+w.InstrPos(leak)+", which reports success or the outcome of a later call: the failure is silently dropped")
+			} else {
+				r.OK(rule, w.InstrPos(iff), name, "failing edge of the test of "+describe(x), "every return reachable from the failing edge reports an error")
+			}
+		}
+	}
 	for _, fn := range w.SortedFuncs(set) {
 		res := fn.Signature.Results()
 		if res.Len() == 0 || !isErrorType(res.At(res.Len()-1).Type()) {
@@ -420,4 +487,24 @@ func ruleErrDrop(w *World, r *Report, set map[*ssa.Function]bool) {
 			}
 		}
 	}
+}
+
+
+// errCarries: v is x, or a phi one of whose ways in is (a phi carrying) x.
+func errCarries(v, x ssa.Value, seen map[ssa.Value]bool) bool {
+	if v == x {
+		return true
+	}
+	if seen[v] {
+		return false
+	}
+	seen[v] = true
+	if phi, ok := v.(*ssa.Phi); ok {
+		for _, e := range phi.Edges {
+			if errCarries(e, x, seen) {
+				return true
+			}
+		}
+	}
+	return false
 }
